@@ -22,7 +22,7 @@ pub static DEF: PropertyDef = PropertyDef {
            the projection of the interleaved history (result, text, tags, choices, can_continue, the flow's own variables) equals the alone transcript; after a crash-restore all \
            flows continue unchanged. Non-trivial = at least two flows produced text and the schedule really alternated; distinct = hash of (program, schedule, fault).",
     assumptions: &["flows touch disjoint knots and variables by construction (identifier prefixes)", "unhandled errors end the whole story (C13), so flow scripts are error-free or the case is discarded"],
-    runs_quick: 900,
+    runs_quick: 3000,
     runs_thorough: 40000,
     exhaustive_note: "all interleavings of two flows with <= 4 (thorough <= 6) operations each, for every sampled program",
     generate,
